@@ -262,6 +262,43 @@ def run_unit_portfolio(unit, seeds=(11, 23, 37), **kw):
     return res
 
 
+def run_vacuity(unit, repo=None):
+    """vacuity guard (DESIGN §9): re-extract with a probe `assert(!vac_probe(N))` at every function entry, loop
+    body and live select/match arm; every probe must FAIL.  Returns (number of probes, [probes that verified])."""
+    ensure_vx()
+    d = os.path.join(BUILD, "vac", unit)
+    os.makedirs(d, exist_ok=True)
+    r = sh([VX, "--repo", repo or REPO, "--spec", os.path.join(VERIF, "spec", unit + ".vs"), "--out", d, "--prelude", os.path.join(VERIF, "prelude"), "--vacuity"])
+    if r.returncode != 0:
+        raise Undecided("vacuity extraction of %s refused: %s" % (unit, r.stderr.strip()[-500:]))
+    probes = json.load(open(os.path.join(d, "probes.json")))
+    text = open(os.path.join(d, "unit.rs")).read()
+    key = hashlib.sha256((text + "\0vac\0" + verus_version()).encode()).hexdigest()
+    cpath = os.path.join(BUILD, "cache", "vac-%s-%s.json" % (unit, key[:24]))
+    os.makedirs(os.path.dirname(cpath), exist_ok=True)
+    if os.path.exists(cpath):
+        err = json.load(open(cpath))["err"]
+    else:
+        rr = sh(["verus", os.path.join(d, "unit.rs"), "--triggers-mode", "silent", "--multiple-errors", "400", "--", "--error-format=json"], cwd=d)
+        err = rr.stderr
+        json.dump({"err": err}, open(cpath, "w"))
+    failed = set()
+    for l in err.split("\n"):
+        if not l.startswith("{"):
+            continue
+        try:
+            dj = json.loads(l)
+        except Exception:
+            continue
+        if dj.get("level") == "error" and "assertion failed" in dj.get("message", ""):
+            for sp in dj.get("spans", []):
+                for t in sp.get("text", []):
+                    for m in re.finditer(r"vac_probe\((\d+)\)", t.get("text", "")):
+                        failed.add(int(m.group(1)))
+    unreached = [p for p in probes if p["n"] not in failed]
+    return len(probes), unreached
+
+
 def print_dev(res):
     if res.refused:
         print("REFUSED:", res.refused)
